@@ -1,9 +1,11 @@
 package main
 
 import (
+	"fmt"
 	"go/ast"
 	"go/token"
 	"go/types"
+	"os"
 	"sort"
 	"strings"
 
@@ -15,6 +17,8 @@ import (
 type FactSet struct {
 	Atoms map[string]*Term
 	Defs  map[*types.Var]*Term
+	owner *Facts // set on the sets handed out by At/AtNode (for queries through callee summaries)
+	depth int
 }
 
 func newFactSet() *FactSet {
@@ -127,11 +131,114 @@ func (f *FactSet) Resolve(t *Term) *Term {
 // implied by one through the small implication table below.
 func (f *FactSet) Holds(t *Term) bool {
 	for _, c := range Conjuncts(f.Resolve(t)) {
-		if !f.holds1(c) {
+		if !f.holds1(c) && !f.holdsViaCallee(c) {
 			return false
 		}
 	}
 	return true
+}
+
+// holdsViaCallee decides an inequality that mentions the result of a call to a
+// small package function H by asking the same question inside H at its single
+// return statement: the call is replaced by the returned expression, the actual
+// arguments (and receiver) by H's parameters. Entry assumptions are translated the
+// same way. This lets a bound computed by an extracted helper (effectiveWnd(),
+// a min/clamp function) be used exactly as if it had been computed in line.
+func (f *FactSet) holdsViaCallee(c *Term) bool {
+	if f.owner == nil || f.depth > 1 || (c.Op != "<=" && c.Op != "<") {
+		return false
+	}
+	p := f.owner.p
+	var k *Term
+	c.Walk(func(x *Term) {
+		if k == nil && x.Op == "call" {
+			if fn, ok := x.Obj.(*types.Func); ok && fn.Pkg() == p.Types {
+				k = x
+			}
+		}
+	})
+	if k == nil {
+		return false
+	}
+	h := p.FuncOf(k.Obj.(*types.Func))
+	if h == nil || h.Body == nil || h.Decl == nil {
+		return false
+	}
+	var rets []*ast.ReturnStmt
+	ast.Inspect(h.Body, func(n ast.Node) bool {
+		if _, isLit := n.(*ast.FuncLit); isLit {
+			return false
+		}
+		if rs, ok := n.(*ast.ReturnStmt); ok {
+			rets = append(rets, rs)
+		}
+		return true
+	})
+	if len(rets) != 1 || len(rets[0].Results) != 1 {
+		return false
+	}
+	var params []*Term
+	if rv := p.recvVar(h); rv != nil {
+		params = append(params, tVar(rv))
+	}
+	for i := 0; ; i++ {
+		o := h.paramObj(p, i)
+		if o == nil {
+			break
+		}
+		params = append(params, tVar(o))
+	}
+	if len(params) != len(k.Args) {
+		return false
+	}
+	translate := func(t *Term) *Term {
+		t = replaceByKey(t, k.Key(), &Term{Op: "RET"})
+		for i, a := range k.Args {
+			if a.IsConst() {
+				continue
+			}
+			t = replaceByKey(t, a.Key(), params[i])
+		}
+		return normTerm(replaceByKey(t, (&Term{Op: "RET"}).Key(), p.Term(rets[0].Results[0])))
+	}
+	q := translate(c)
+	if os.Getenv("KCPVERIF_DEBUG") != "" {
+		fmt.Fprintln(os.Stderr, "viaCallee:", c.Key(), "=>", q.Key())
+	}
+	var assume []*Term
+	for _, a := range f.owner.opt.Assume {
+		assume = append(assume, translate(a))
+	}
+	fa2 := p.Facts(h, FactOpts{Assume: assume})
+	fs2 := fa2.AtNode(rets[0])
+	fs2.depth = f.depth + 1
+	return fs2.Holds(q)
+}
+
+func replaceByKey(t *Term, key string, repl *Term) *Term {
+	if t == nil {
+		return nil
+	}
+	if t.Key() == key {
+		return repl
+	}
+	if len(t.Args) == 0 {
+		return t
+	}
+	n := *t
+	n.key = ""
+	n.Args = make([]*Term, len(t.Args))
+	changed := false
+	for i, a := range t.Args {
+		n.Args[i] = replaceByKey(a, key, repl)
+		if n.Args[i] != a {
+			changed = true
+		}
+	}
+	if !changed {
+		return t
+	}
+	return &n
 }
 
 func (f *FactSet) resolvedAtoms() map[string]*Term {
@@ -539,6 +646,35 @@ func (fa *Facts) transfer(fs *FactSet, n ast.Node) {
 			for i := range x.Lhs {
 				def(x.Lhs[i], x.Rhs[i])
 			}
+			// v := min(a, b, ..) / v = max(..): the bounds as atoms of their own (they survive a
+			// join in which the definition itself is lost)
+			for i := range x.Lhs {
+				id, isId := ast.Unparen(x.Lhs[i]).(*ast.Ident)
+				if !isId {
+					continue
+				}
+				o := p.Info.Uses[id]
+				if o == nil {
+					o = p.Info.Defs[id]
+				}
+				v, isV := o.(*types.Var)
+				if !isV || v.IsField() || p.addrTaken(v) {
+					continue
+				}
+				rt := p.Term(x.Rhs[i])
+				if rt.Op != "min" && rt.Op != "max" {
+					continue
+				}
+				for _, a := range rt.Args {
+					if (a.Op == "var" || a.Op == "fld" || a.Op == "const") && p.pureTerm(a) && !a.Contains(tVar(v)) {
+						if rt.Op == "min" {
+							fs.add(le(tVar(v), a))
+						} else {
+							fs.add(le(a, tVar(v)))
+						}
+					}
+				}
+			}
 			// X.f = simple value: the two inequalities between the field and the value
 			if x.Tok == token.ASSIGN {
 				for i := range x.Lhs {
@@ -713,7 +849,20 @@ func (p *Prog) Facts(fi *FuncInfo, opt FactOpts) *Facts {
 			}
 			for _, cj := range Conjuncts(t) {
 				if p.pureTerm(cj) {
-					fs.add(p.ExpandHelpers(cj))
+					e := p.ExpandHelpers(cj)
+					fs.add(e)
+					// a < b with a known constant lower bound of a bounds b from below by a constant;
+					// kept as its own atom because it survives a later change of a
+					if (e.Op == "<" || e.Op == "<=") && len(e.Args) == 2 && !e.Args[0].IsConst() && !e.Args[1].IsConst() {
+						if lo, okLo := fs.lowerConst(fs.resolvedAtoms(), e.Args[0], 0); okLo {
+							if e.Op == "<" {
+								lo++
+							}
+							if lo > 0 {
+								fs.add(le(tConst(lo), e.Args[1]))
+							}
+						}
+					}
 				}
 			}
 		}
@@ -796,6 +945,7 @@ func (fa *Facts) At(pt Point) *FactSet {
 	for i := 0; i < pt.I && i < len(pt.B.Nodes); i++ {
 		fa.transfer(cur, pt.B.Nodes[i])
 	}
+	cur.owner = fa
 	return cur
 }
 
@@ -949,6 +1099,13 @@ func (f *FactSet) lowerConst(atoms map[string]*Term, t *Term, depth int) (int64,
 			upd(lo)
 		}
 	}
+	if t.Op == "fld" || t.Op == "var" {
+		if v, isV := t.Obj.(*types.Var); isV {
+			if b, isB := v.Type().Underlying().(*types.Basic); isB && b.Info()&types.IsUnsigned != 0 {
+				upd(0)
+			}
+		}
+	}
 	return best, ok
 }
 
@@ -1021,7 +1178,7 @@ func (p *Prog) constFieldRange(o types.Object) (lo, hi int64, ok bool) {
 	if v, seen := memo[f]; seen {
 		return v.lo, v.hi, v.ok
 	}
-	memo[f] = rng{} // guards against recursion through Term construction
+	memo[f] = rng{}                    // guards against recursion through Term construction
 	res := rng{lo: 0, hi: 0, ok: true} // the zero value
 	n := 0
 	for _, st := range p.FieldStores(f) {
